@@ -3,6 +3,8 @@
 //
 // op   : f <GET|HEAD|POST> <10|11> <req Connection value hex|-> <keepalives 0|1> <req body len> <script>
 // script: comma separated   S:<Key>:<valhex>  A:<Key>:<valhex>  H:<code>  W:<hex>  R:<n>:<bytehex>  F   ("-" = empty)
+//        m <exchange>;<exchange>;...   several exchanges (each an `f ...` op, on its own connection) run in this order in
+//        one process state: statusLine()'s process-wide Status-Line cache is emptied before the first one only
 // result: <closeAfterReply 0|1> <requestBodyLimitHit 0|1> <write results, one digit each|-> <unread request bytes> <hex of bytes on the wire, Date value replaced by D>
 package main
 
@@ -61,6 +63,18 @@ func parseScript(s string) ([]bfe_server.VerifC27Action, bool) {
 }
 
 func exec(op string) string {
+	bfe_server.VerifC27ResetStatusCache()
+	if strings.HasPrefix(op, "m ") {
+		var rs []string
+		for _, e := range strings.Split(op[2:], ";") {
+			rs = append(rs, execOne(e))
+		}
+		return strings.Join(rs, ";")
+	}
+	return execOne(op)
+}
+
+func execOne(op string) string {
 	f := strings.Split(op, " ")
 	if len(f) != 7 || f[0] != "f" {
 		return "bad-op"
@@ -112,7 +126,90 @@ func hx(s string) string { return vh.Hex([]byte(s)) }
 
 var sizes = []int{0, 1, 2, 10, 100, 511, 512, 513, 600, 1023, 1024, 1025, 2000}
 
+type exch struct {
+	method, proto, conn, ka string
+	rb                      int
+	acts                    []string
+}
+
+func (e exch) String() string {
+	s := "-"
+	if len(e.acts) > 0 {
+		s = strings.Join(e.acts, ",")
+	}
+	return fmt.Sprintf("f %s %s %s %s %d %s", e.method, e.proto, e.conn, e.ka, e.rb, s)
+}
+
+// status returns the code of the first H action ("" = implicit 200 or H after a write)
+func (e exch) status() string {
+	for _, a := range e.acts {
+		if strings.HasPrefix(a, "H:") {
+			return a[2:]
+		}
+		if a == "F" || a[0] == 'W' || a[0] == 'R' {
+			return "200"
+		}
+	}
+	return "200"
+}
+
+// withStatus makes the exchange answer with the given code (first H replaced, or an H put before the body actions)
+func (e exch) withStatus(code string) exch {
+	var out []string
+	done := false
+	for _, a := range e.acts {
+		if !done && strings.HasPrefix(a, "H:") {
+			out = append(out, "H:"+code)
+			done = true
+			continue
+		}
+		if !done && (a == "F" || a[0] == 'W' || a[0] == 'R') {
+			out = append(out, "H:"+code)
+			done = true
+		}
+		out = append(out, a)
+	}
+	if !done {
+		out = append(out, "H:"+code)
+	}
+	e.acts = out
+	return e
+}
+
 func gen(r *vh.Rand) string {
+	if !r.Chance(1, 4) {
+		return genOne(r).String()
+	}
+	// a history: 2..3 exchanges; mostly an HTTP/1.0 and an HTTP/1.1 exchange with the SAME status, in both orders
+	n := r.Range(2, 3)
+	es := make([]exch, n)
+	for i := range es {
+		es[i] = genOne(r)
+	}
+	if r.Chance(4, 5) {
+		i := r.Intn(n - 1)
+		es[i+1] = es[i+1].withStatus(es[i].status())
+		if es[i].proto == "10" {
+			es[i+1].proto = "11"
+		} else {
+			es[i+1].proto = "10"
+		}
+		if r.Chance(1, 2) { // the HTTP/1.1 side streams (chunked) — the case a mis-versioned status line breaks
+			for k := i; k <= i+1; k++ {
+				if es[k].proto == "11" && es[k].method != "HEAD" {
+					es[k].acts = append(es[k].acts, "F", "R:5:61")
+				}
+			}
+		}
+	}
+	var ss []string
+	for _, e := range es {
+		ss = append(ss, e.String())
+	}
+	return "m " + strings.Join(ss, ";")
+}
+
+func genOne(r *vh.Rand) exch {
 	method := r.Pick("GET", "GET", "GET", "HEAD", "POST")
 	proto := r.Pick("11", "11", "10")
 	conn := "-"
@@ -231,11 +328,7 @@ func gen(r *vh.Rand) string {
 			acts = append(acts, "H:500")
 		}
 	}
-	s := "-"
-	if len(acts) > 0 {
-		s = strings.Join(acts, ",")
-	}
-	return fmt.Sprintf("f %s %s %s %s %d %s", method, proto, conn, ka, rb, s)
+	return exch{method: method, proto: proto, conn: conn, ka: ka, rb: rb, acts: acts}
 }
 
 func main() { vh.Main(gen, exec) }
